@@ -497,7 +497,8 @@ def _malformed(rng):
             c['data'] = [[[0] * S for _ in range(n)] for _ in range(P)]
     elif which == 'undescribed':
         c['layout'], c['dtype'], c['den'], c['two_d'] = 'label', 'uint16', 1, False
-        bad = rng.choice([v for v in range(1, 9) if v not in c['segs']] + [max(c['segs']) + 1])
+        bad = rng.choice(([v for v in range(1, 9) if v not in c['segs']] + [v for v in [max(c['segs']) + 1] if v <= 65535])
+                         or [next(v for v in range(9, 65536) if v not in c['segs'])])   # must fit uint16
         c['data'] = [[0] * n for _ in range(P)]
         c['data'][rng.randrange(P)][rng.randrange(n)] = bad
     elif which == 'stack_gt1':
@@ -851,7 +852,8 @@ def _tiled_bad(rng):
         c['data'] = [[0] * n] if c['layout'] == 'label' else [[[0] * S for _ in range(n)]]
     elif which == 't_undescribed':
         c['layout'], c['dtype'], c['den'], c['two_d'] = 'label', 'uint16', 1, False
-        bad = rng.choice([v for v in range(1, 9) if v not in c['segs']] + [max(c['segs']) + 1])
+        bad = rng.choice(([v for v in range(1, 9) if v not in c['segs']] + [v for v in [max(c['segs']) + 1] if v <= 65535])
+                         or [next(v for v in range(9, 65536) if v not in c['segs'])])   # must fit uint16
         c['data'] = [[0] * n]
         c['data'][0][rng.randrange(n)] = bad
     return c
